@@ -109,6 +109,7 @@ pub open spec fn linv_at(w0: World, steps: Seq<TStep>, id: BytesN<32>) -> bool {
 /// the view after any step, for every id
 pub proof fn lemma_step_view(w: World, st: TStep, id: BytesN<32>)
     ensures
+        //@@ C08:lemma.step_view
         op_ledger(step_post(w, st), id) == (
             if is_schedule(st, id) { sat_add(w.ledger_seq, sched_delay(st)) }
             else if is_exec(st, id) { DONE_LEDGER }
@@ -129,7 +130,9 @@ pub proof fn lemma_step_view(w: World, st: TStep, id: BytesN<32>)
 
 pub proof fn lemma_step_linv(w: World, st: TStep, id: BytesN<32>, l: Life, cnt: nat, n: int)
     requires step_ok(w, st), linv(w, l, cnt, id),
-    ensures linv(step_post(w, st), life_step(l, w, n, st, id), cnt + (if is_exec(st, id) { 1nat } else { 0nat }), id),
+    ensures
+        //@@ C08:lemma.step_inv
+        linv(step_post(w, st), life_step(l, w, n, st, id), cnt + (if is_exec(st, id) { 1nat } else { 0nat }), id),
 {
     lemma_step_view(w, st, id);
 }
@@ -210,7 +213,9 @@ pub proof fn lemma_automaton(w0: World, steps: Seq<TStep>, k: int, id: BytesN<32
 }
 pub proof fn lemma_valid_prefix(w0: World, steps: Seq<TStep>, k: int)
     requires valid(w0, steps), 0 <= k <= steps.len(),
-    ensures valid(w0, steps.take(k)),
+    ensures
+        //@@ C08:lemma.valid_prefix
+        valid(w0, steps.take(k)),
     decreases steps.len()
 {
     if k == steps.len() { assert(steps.take(k) =~= steps); }
@@ -401,14 +406,18 @@ pub proof fn lemma_c08(w0: World, steps: Seq<TStep>, n: int, id: BytesN<32>)
 /// without ever having been executed (stored ready ledger 1 == DONE_LEDGER)
 pub proof fn lemma_sentinel_collision_done(w: World, op: Operation)
     requires w.ledger_seq == 1, schedule_guard(w, op, 0),
-    ensures op_state(schedule_post(w, op, 0), op_id(op)) is Done,
+    ensures
+        //@@ C08:note.sentinel_collision_ledger1
+        op_state(schedule_post(w, op, 0), op_id(op)) is Done,
 {
     lemma_op_view(w, TOp::Schedule { op: op, delay: 0 }, op_id(op));
 }
 /// at ledger 0, delay 1 does the same; delay 0 leaves the operation Unset although schedule returned
 pub proof fn lemma_sentinel_collision_ledger0(w: World, op: Operation)
     requires w.ledger_seq == 0,
-    ensures schedule_guard(w, op, 1) ==> op_state(schedule_post(w, op, 1), op_id(op)) is Done,
+    ensures
+        //@@ C08:note.sentinel_collision_ledger0
+        schedule_guard(w, op, 1) ==> op_state(schedule_post(w, op, 1), op_id(op)) is Done,
         schedule_guard(w, op, 0) ==> op_state(schedule_post(w, op, 0), op_id(op)) is Unset,
 {
     lemma_op_view(w, TOp::Schedule { op: op, delay: 1 }, op_id(op));
@@ -422,7 +431,9 @@ pub open spec fn w_empty() -> World {
         self_auths: Seq::empty(), events: Seq::empty(), calls: Seq::empty(), ext: 0 }
 }
 pub proof fn lemma_genesis_witness()
-    ensures genesis(w_empty()),
+    ensures
+        //@@ C08:lemma.genesis_witness
+        genesis(w_empty()),
 {
     assert forall|id: BytesN<32>| #[trigger] op_ledger(w_empty(), id) == UNSET_LEDGER by {
         assert(pget(w_empty(), TimelockStorageKey::OperationLedger(id)).is_none());
@@ -460,7 +471,9 @@ pub proof fn lemma_happy_path(op: Operation, w0: World, d: u32)
 }
 pub proof fn lemma_happy_prefix(op: Operation, w0: World, d: u32, wait: u32)
     requires genesis(w0), w0.ledger_seq + d <= u32::MAX, wait <= d,
-    ensures valid(w0, happy(op, w0, d, wait).take(3)),
+    ensures
+        //@@ C08:lemma.witness_prefix
+        valid(w0, happy(op, w0, d, wait).take(3)),
         op_ledger(run(w0, happy(op, w0, d, wait).take(3)), op_id(op)) == w0.ledger_seq + d,
         run(w0, happy(op, w0, d, wait).take(3)).ledger_seq == w0.ledger_seq + wait,
 {
